@@ -68,6 +68,13 @@ theorem StoredHashCount_tie (fuel : Nat) (n : Int) (h0 : 0 ≤ n) (hr : Tlog.sto
   have := StoredHashCount_eq fuel n.toNat hr hf
   rwa [Int.toNat_of_nonneg h0] at this
 
+/-- the range hypothesis of `StoredHashCount_tie` is exact: an int64 `n ≥ 0` whose count does not fit in int64 overflows -/
+theorem StoredHashCount_tie_overflow (fuel : Nat) (n : Int) (h0 : 0 ≤ n) (hn : n < 2 ^ 63)
+    (hr : 2 ^ 63 ≤ Tlog.storedHashCount n.toNat) (hf : 65 ≤ fuel) :
+    Generated.Tlog.StoredHashCount fuel n = .error .overflow := by
+  have := StoredHashCount_overflow fuel n.toNat (by omega) hr hf
+  rwa [Int.toNat_of_nonneg h0] at this
+
 example : Generated.Tlog.StoredHashCount 64 13 = .ok 23 ∧ Tlog.storedHashCount (13 : Int).toNat = 23 := ⟨rfl, rfl⟩
 
 /-- `subTreeIndex(lo, hi, need)` for `0 ≤ lo`, `hi ≤ 2^62`, constant fuel.  `subTreeIndexOut need` appends the model's
